@@ -3,11 +3,11 @@ From Coq Require Import List String.
 Import ListNotations.
 Open Scope string_scope.
 (* src.get_commit_diff(dst, ignore_merges=?) and branch.get_commit_diff(dst, ignore_merges=?) in _reset *)
-Definition feature_ignore_merges : bool := true.
-Definition walk_ignore_merges : bool := true.
+Definition feature_ignore_merges : bool := false.
+Definition walk_ignore_merges : bool := false.
 (* false: `len(rev.parents) == 1 and (parent in feature or dst.includes_commit(parent))`;
    true : `rev.parents and all(p in feature or dst.includes_commit(p) for p in rev.parents)` *)
-Definition parent_rule_all : bool := false.
+Definition parent_rule_all : bool := true.
 (* push(job.git.repo, prune=?) *)
 Definition push_prune : bool := true.
 (* Branch.remove refuses names that start with none of these *)
@@ -15,4 +15,4 @@ Definition remove_guard_prefixes : list string := ["w/"; "q/"; "tmp/"].
 (* get_integration_branches: name format *)
 Definition w_format : string := "w/{}/{}".
 (* tripwire (not used by proofs; the harness executes it): literal command line of Commit.author *)
-Definition author_cmd : string := "git show --pretty=""%%aN"" %s".
+Definition author_cmd : string := "git show -s --pretty=""%%aN"" %s".
